@@ -1,0 +1,46 @@
+'''
+Verification hook (disabled unless the environment variable PYVSC_VERIF is '1').
+
+A verification harness may install a callable in 'sink' to observe what a 
+randomization call is about to solve: the value ranges inferred for each field, the 
+partition into rand sets and the ordered groups. Nothing is observed, and nothing 
+is computed, when the guard is off.
+'''
+import os
+
+enabled = (os.environ.get("PYVSC_VERIF", "0") == "1")
+
+# Set by the harness: callable(kind:str, payload:dict)
+sink = None
+
+def active():
+    return enabled and sink is not None
+
+def solve_begin(ri, bound_m):
+    """Called after bounds inference and rand-set construction, before solving"""
+    if not active():
+        return
+    bounds = {}
+    for f,b in bound_m.items():
+        bounds[f.fullname] = {
+            "ranges" : [[int(r[0]), int(r[1])] for r in b.domain.range_l],
+            "constrained" : bool(b.constrained)}
+    randsets = []
+    for rs in ri.randsets():
+        randsets.append({
+            "fields" : [f.fullname for f in rs.all_fields()],
+            "n_constraints" : len(rs.constraints()),
+            "n_soft" : len(rs.soft_constraints()),
+            "order" : [[f.fullname for f in g] for g in rs.rand_order_l] if rs.rand_order_l is not None else []})
+    sink("solve_begin", {
+        "bounds" : bounds, 
+        # the field models themselves, for harnesses that map them back to user-level paths
+        "bound_fields" : [(f, [[int(r[0]), int(r[1])] for r in b.domain.range_l], bool(b.constrained)) 
+                          for f,b in bound_m.items()],
+        "randsets" : randsets, 
+        "unconstrained" : [f.fullname for f in ri.unconstrained()]})
+
+def solve_end(status):
+    if not active():
+        return
+    sink("solve_end", {"status" : status})
